@@ -30,7 +30,8 @@ impl<U> crate::fold::Fold<U> for ConstantOptimizer {
                     .into_iter()
                     .map(|x| self.fold_expr(x))
                     .collect::<Result<Vec<_>, _>>()?;
-                let expr = if elts.iter().all(|e| e.is_constant_expr()) {
+                // only a tuple that is read can be a constant: `() = x` unpacks into a store-context tuple
+                let expr = if ctx.is_load() && elts.iter().all(|e| e.is_constant_expr()) {
                     let tuple = elts
                         .into_iter()
                         .map(|e| match e {
